@@ -255,7 +255,9 @@ func (t *WSTransport) getOrDial(ctx context.Context, opts common.Options) (*wsCo
 		t.mu.Lock()
 		delete(t.dialing, key)
 
-		if err == nil {
+		// A connection that was shut down while it was being handed over has
+		// already run removeConn and must not enter the pool.
+		if err == nil && !conn.isClosed() {
 			t.conns[key] = conn
 		}
 		t.mu.Unlock()
@@ -327,11 +329,12 @@ func (t *WSTransport) dial(ctx context.Context, key uint64, opts common.Options)
 		abstractlogger.String("negotiated_subprotocol", wsConn.Subprotocol()),
 	)
 
-	conn := newWSConnection(wsConn, proto, wsConnectionOptions{
+	var conn *wsConnection
+	conn = newWSConnection(wsConn, proto, wsConnectionOptions{
 		logger:       t.opts.Logger,
 		writeTimeout: t.opts.WriteTimeout,
 		idleTimeout:  t.opts.IdleTimeout,
-		onEmpty:      func() { t.removeConn(key) },
+		onEmpty:      func() { t.removeConn(key, conn) },
 	})
 
 	go conn.readLoop()
@@ -362,10 +365,14 @@ func (t *WSTransport) negotiateSubprotocol(requested common.WSSubprotocol, accep
 	}
 }
 
-func (t *WSTransport) removeConn(key uint64) {
+// removeConn drops conn from the pool. A newer connection that has taken over
+// the key in the meantime stays.
+func (t *WSTransport) removeConn(key uint64, conn *wsConnection) {
 	t.mu.Lock()
 	defer t.mu.Unlock()
-	delete(t.conns, key)
+	if t.conns[key] == conn {
+		delete(t.conns, key)
+	}
 }
 
 // connKey computes a hash key for connection pooling.
